@@ -85,7 +85,10 @@ TFresh ==      /\ IsEv("Fresh") /\ NoPanic
 TReset ==      /\ IsEv("Reset")
                /\ keys' = << >> /\ issued' = {} /\ sigof' = << >> /\ ser' = << >> /\ out' = [op |-> "init"]
 
-TNext == TReset \/ TKeyGenSeed \/ TKeyGenRng \/ TSign \/ TVerify \/ TSer \/ TDeser \/ TDerive \/ TClone \/ TDrop
+\* a remark of the harness about how the following lines were selected (no call of the library)
+TNote ==       IsEv("Note") /\ UNCHANGED << keys, issued, sigof, ser, out >>
+
+TNext == TReset \/ TNote \/ TKeyGenSeed \/ TKeyGenRng \/ TSign \/ TVerify \/ TSer \/ TDeser \/ TDerive \/ TClone \/ TDrop
          \/ TFlipSweep \/ TDrawSweep \/ TFresh
 TSpec == TInit /\ [][TNext]_tvars
 
